@@ -338,6 +338,14 @@ class Node:
             )
 
         if new_data_id:
+            # Same data must not appear twice below one parent
+            for n in cur_nodes if (has_clones and with_clones) else [self]:
+                for sibling in n._parent._children:  # type: ignore
+                    if sibling is not n and sibling._data_id == new_data_id:
+                        raise UniqueConstraintError(
+                            f"Node.data already exists in parent: {n._parent}"
+                        )
+
             # data_id (and possibly data) changes: we have to update the map
             if has_clones:
                 if with_clones:
